@@ -283,6 +283,67 @@ def run(tier):
     res.check(bool(subs) and bool(okedges) and f.must_pass(via_edges=set(okedges), targets=[(b, i) for b, i, _ in subs]), "T8.read-range-clamp", "eos-minus-offset-needs-offset-below-eos", f.loc,
               "the length clamp `eos - offset` is computed only on the `offset < eos` edge", "ZSTD_seekable_decompress computes eos - offset for an offset beyond the end: the difference wraps and is returned as the number of bytes read")
     res.need("T8.read-range-clamp", 1)
+    # a frame's checksum is verified when the frame COMPLETES; a read can only end without completion inside the frame it is
+    # reading.  So no frame may be given room beyond its own end in the table: every output buffer built on the caller's dst
+    # has a size that derives from the seek table's dOffset (the frame's end), not from the request length alone.
+    outs = []
+    for b, i, r in f.roots():
+        for x in walk(r):
+            if x.get("k") == "init" and "ZSTD_outBuffer" in (x.get("t") or "") and len(x.get("a", [])) == 3:
+                d0 = strip_casts(f.resolve_x(x["a"][0]))
+                if d0 is not None and d0.get("k") == "ref" and d0.get("rk") == "p":
+                    outs.append(x)
+    res.check(len(outs) >= 1, "T8.frame-output-capped", "sites", f.loc, "%d output buffer(s) built on the caller's dst" % len(outs), "output buffer on the caller's dst not found")
+    for x in outs:
+        anc = f.anchors(x["a"][1], depth=3)
+        res.check("f:dOffset" in anc, "T8.frame-output-capped", "ZSTD_seekable_decompress@%s" % (x.get("l") or ""), f.loc,
+                  "room given to a frame is bounded by the frame's end in the seek table",
+                  "ZSTD_seekable_decompress hands a frame the whole rest of the caller's buffer: a corrupted frame that regenerates more than its table entry "
+                  "says fills the following offsets, the read ends without the frame completing and without any checksum - wrong data returned as success")
+    res.need("T8.frame-output-capped", 2)
+    # the table size is computed in 32 bits from the announced frame count: the count is bounded by the format's maximum before
+    # the table is allocated or walked, and with that bound the 32-bit size cannot wrap
+    from ..rules.linear import macro_value
+    ld = prog.fn("ZSTD_seekable_loadSeekTable")
+    al = ld.call_roots(("malloc", "calloc"))
+    guards.require(ld, res, "T11.seek-table-extent", "frame-count-bounded-before-allocation",
+                   Want(None, ">", {"c:MEM_readLE32"}, {"m:ZSTD_SEEKABLE_MAXFRAMES"}), al,
+                   why="(a wrapped 32-bit table size passes every consistency test: a 34-byte archive is accepted with 2^29 entries)")
+    mx = macro_value(prog, "ZSTD_SEEKABLE_MAXFRAMES", [ld] + list(prog.fns_in("seekable_format/zstdseek_compress.c")))
+    res.check(isinstance(mx, int) and 12 * mx + 9 + 8 < (1 << 32), "T11.seek-table-extent", "table-size-fits-32-bits", ld.loc,
+              "12 * ZSTD_SEEKABLE_MAXFRAMES + footer + header = %s < 2^32" % (12 * mx + 17 if isinstance(mx, int) else "?"),
+              "with ZSTD_SEEKABLE_MAXFRAMES = %s the 32-bit seek table size can wrap" % mx)
+    # the checksum flag is an int used as a truth value for the entry layout (12-byte entries when non-zero) and shifted into
+    # ONE bit of the descriptor byte: both uses agree only for 0/1, so either the shift operand or every writer normalises it
+    def boolish(fn, n):
+        n = strip_casts(fn.resolve_x(n))
+        if n is None:
+            return False
+        if n.get("k") == "paren":
+            return boolish(fn, n.get("e"))
+        if const_val(n) in (0, 1):
+            return True
+        if n.get("k") == "bin" and (n.get("op") in ("==", "!=", "<", ">", "<=", ">=", "&&", "||") or (n.get("op") == "&" and 1 in (const_val(n["lhs"]), const_val(n["rhs"])))):
+            return True
+        if n.get("k") == "un" and n.get("op") == "!":
+            return True
+        if n.get("k") == "cond":
+            return boolish(fn, n["t"]) and boolish(fn, n["f"])
+        return False
+    shifts, writers = [], []
+    for g in prog.fns_in("seekable_format/zstdseek_compress.c"):
+        for b, i, r in g.roots():
+            for x in walk(r):
+                if x.get("k") == "bin" and x.get("op") == "<<" and any(y.get("k") == "mem" and y.get("f") == "checksumFlag" for y in g.walk_resolved(x["lhs"])):
+                    shifts.append((g, x))
+                if x.get("k") == "asg" and strip_casts(x["lhs"]).get("k") == "mem" and strip_casts(x["lhs"]).get("f") == "checksumFlag":
+                    writers.append((g, x))
+    okw = bool(writers) and all(boolish(g, x["rhs"]) for g, x in writers)
+    oks = bool(shifts) and all(boolish(g, x["lhs"]) for g, x in shifts)
+    res.check(bool(shifts) and (okw or oks), "T7.layout", "checksum-flag-is-one-bit", "contrib/seekable_format/zstdseek_compress.c",
+              "the flag shifted into the descriptor bit is normalised to 0/1 (%d writer(s), %d shift(s))" % (len(writers), len(shifts)),
+              "the checksum flag decides the entry size as a truth value but is shifted into the descriptor byte unnormalised: an even non-zero value "
+              "writes 12-byte entries under a descriptor that says 8, and the reader cannot read the archive")
     # frozen guards of the seekable format (all error codes)
     import json as _json, os as _os
     _inv = _json.load(open(_os.path.join(_os.path.dirname(_os.path.abspath(__file__)), "inv", "C20.json")))
